@@ -95,6 +95,9 @@ Section Spec.
     | OInsert i x => match may_add l x with
                      | Err e => (Err e, l)
                      | Ok _ => (Ok RNone, insert_at (clamp_index (zlen l) i) x l) end
+    | OInsertBadPos x => match may_add l x with
+                         | Err e => (Err e, l)
+                         | Ok _ => (Err TypeErr, l) end
     | OAppend x => match may_add l x with
                    | Err e => (Err e, l)
                    | Ok _ => (Ok RNone, l ++ [x]) end
